@@ -1,5 +1,6 @@
 // C14 — varint coding: canonical, lossless, bounded; buffer and source decoders agree.
 #include "support/vp.hpp"
+#include <memory>
 #include "support/ufw.hpp"
 #include "model/varint.hpp"
 #include <ufw/compat/errno.h>
@@ -122,7 +123,7 @@ static bool check_value(int k, uint64_t raw) {
 // prefixarg: low octet = number of junk octets in front of the string (offset), bit 8 = the buffer is presented the way byte_buffer_space()
 // users do it: fill mark 0, so that with an offset the fill mark lies below the read position (the suite decodes from such buffers)
 static bool check_string(int k, const uint8_t *s, size_t n, size_t prefixarg) {
-    size_t prefix = prefixarg & 0xff; bool space_style = prefixarg & 0x100;
+    size_t prefix = prefixarg & 0xff; bool space_style = prefixarg & 0x100, readonly = prefixarg & 0x200;   // bit 9: the memory is read-only (a const table, a read-only mapping)
     size_t M = maxoct(k);
     g_cur.mode = 1; g_cur.k = k; g_cur.s = s; g_cur.n = n; g_cur.prefix = prefixarg;
     ref::VarintResult r = ref::varint_decode(s, n, M, bits(k));
@@ -132,10 +133,12 @@ static bool check_string(int k, const uint8_t *s, size_t n, size_t prefixarg) {
     size_t total = prefix + n;
     uint8_t arena[64];
     uint8_t *mem;
+    std::unique_ptr<vp::RoBlock> ro;
     if (FAST) { memset(arena, 0, sizeof arena); mem = arena; }   // zeros behind the buffer: an over-reading decoder would "succeed"
     else mem = (uint8_t *)malloc(total ? total : 1);
     for (size_t i = 0; i < prefix; i++) mem[i] = 0x80;
     if (n) memcpy(mem + prefix, s, n);
+    if (readonly && !FAST && total) { ro.reset(new vp::RoBlock(mem, total)); if (ro->p) { free(mem); mem = ro->p; } else ro.reset(); }
     ByteBuffer b;
     b.data = mem; b.size = total; b.used = space_style ? 0 : total; b.offset = prefix;
     uint64_t vb = 0, vs = 0;
@@ -162,7 +165,7 @@ static bool check_string(int k, const uint8_t *s, size_t n, size_t prefixarg) {
         if (rs >= 0) ok = F("source-truncated-accepted", vp::fmt("source ended inside the varint but decoder returned %d", rs));
         break;
     }
-    if (!FAST) free(mem);
+    if (!FAST && !ro) free(mem);
     return ok;
 }
 
@@ -181,7 +184,7 @@ static void strings_upto(size_t minlen, size_t maxlen) {
             for (int k = 0; k < 4; k++) {
                 // the first maxoct octets decide everything; skip strings that only differ behind max+1 (counted once)
                 vp::count();
-                { static const size_t PFX[6] = {1, 0x100, 0, 0x101, 0, 0x102}; check_string(k, s, len, PFX[code % 6]); }
+                { static const size_t PFX[6] = {1, 0x100, 0, 0x101, 0, 0x102}; check_string(k, s, len, PFX[code % 6] | (code % 13 == 5 ? 0x200 : 0)); }
             }
             bool nontrivial = !term || firstterm >= 5 || (firstterm > 0 && s[firstterm] == 0x00);   // truncated / over-long / non-canonical
             if (nontrivial) vp::nontrivial(vp::mix(code, len));
